@@ -40,3 +40,25 @@ def replay_verify(inp):
             except Exception as e:
                 bad.append({"key": label, "why": "sign/verify raised %r" % (e,)})
     return {"violates": bool(bad), "detail": bad[:4]}
+
+
+def rsa_odd_modulus(inp):
+    """RSA keys whose modulus length is not a multiple of 8 bits: genuine signatures are ceil(bits/8) bytes long and must
+    verify, under the signing key and under its public half, for all three hash algorithms"""
+    from cryptography.hazmat.primitives.asymmetric import rsa
+    from paramiko import RSAKey
+    from paramiko.message import Message
+    bad = []
+    for bits in (2047, 1027, 2048):
+        try:
+            k = RSAKey(key=rsa.generate_private_key(public_exponent=65537, key_size=bits))
+        except ValueError:
+            continue            # this build of the library refuses the size
+        pub = RSAKey(data=k.asbytes())
+        for alg in ("ssh-rsa", "rsa-sha2-256", "rsa-sha2-512"):
+            sig = k.sign_ssh_data(b"payload", alg)
+            for who, key in (("signing key", k), ("public key", pub)):
+                m = Message(sig.asbytes())
+                if key.verify_ssh_sig(b"payload", m) is not True:
+                    bad.append("RSA %d-bit, %s: genuine signature rejected by the %s" % (bits, alg, who))
+    return {"violates": bool(bad), "detail": bad[:3]}
